@@ -63,6 +63,7 @@ def run(ctx):
         "M-NONE": "the seed is never tested by truthiness (seed 0 is a seed)",
         "C-ATTR": "every self attribute read exists in the class",
         "Y-WEIGHTED": "the yielded hypergraph is weighted, built from filtered (> 0) weights and hyperedges selected with the same index set, duplicates merged by summation",
+        "B-MAXSIZE": "a hyperedge size drawn at random by the sampler lies in [2, max_hye_size]",
         "K-IDX": "labels go in through mapping.transform and come out through mapping.inverse_transform of the same mapping, under the same condition",
     })
     files = ["hypergraphx/generation/hy_mmsbm_sampling.py"]
@@ -118,6 +119,53 @@ def run(ctx):
                 ok = arg is not None and norm(arg) in ("self._rng", "rng")
                 res.check(ok, "R-FALLBACK", cf.caller.short, norm(cf.node), cf.callee.short, f"{cf.callee.short} is called without a generator: it falls back to an unseeded default_rng()", loc(cf.caller, cf.node))
     # ---- Y-WEIGHTED
+    # ---- B-MAXSIZE: a hyperedge size drawn at random inside the sampler stays within [2, max_hye_size]
+    with res.guard("B-MAXSIZE"):
+        n_draws = 0
+        for name, mfi in sorted(ctx.methods("HyMMSBMSampler").items()):
+            mv = ctx.view(mfi)
+            for n in walk_no_nested(mfi.node):
+                if not (isinstance(n, ast.Assign) and len(n.targets) == 1 and isinstance(n.targets[0], ast.Name) and isinstance(n.value, ast.Call) and isinstance(n.value.func, ast.Attribute) and n.value.func.attr in ("integers", "randint")):
+                    continue
+                var = n.targets[0].id
+                # is the drawn number used as a hyperedge size?  (handed to a parameter called *size* of a sampler method)
+                used_as_size = False
+                for c in walk_no_nested(mfi.node):
+                    if isinstance(c, ast.Call):
+                        for callee in ctx.callees(mfi, c):
+                            pn = [a.arg for a in callee.params]
+                            if callee.cls is not None and not callee.is_static:
+                                pn = pn[1:]
+                            for i, a in enumerate(c.args):
+                                if isinstance(a, ast.Name) and a.id == var and i < len(pn) and "size" in pn[i]:
+                                    used_as_size = True
+                            for kw in c.keywords:
+                                if kw.arg and "size" in kw.arg and isinstance(kw.value, ast.Name) and kw.value.id == var:
+                                    used_as_size = True
+                if not used_as_size:
+                    continue
+                n_draws += 1
+                args = list(n.value.args)
+                kw = {k.arg: k.value for k in n.value.keywords}
+                lo = kw.get("low", args[0] if args else None)
+                hi = kw.get("high", args[1] if len(args) > 1 else None)
+                if hi is None:
+                    lo, hi = None, lo
+                hi_i = mv.inline(hi) if hi is not None else None
+                mentions = hi_i is not None and any((isinstance(x, ast.Attribute) and x.attr == "max_hye_size") or (isinstance(x, ast.Name) and "max_hye_size" in x.id) for x in ast.walk(hi_i))
+                free = {x.id for x in ast.walk(hi_i) if isinstance(x, ast.Name)} if hi_i is not None else set()
+                opaque = any(
+                    isinstance(d_, ast.Assign) and any(isinstance(t, ast.Name) and t.id in free for t in d_.targets) and any((isinstance(x, ast.Attribute) and x.attr == "max_hye_size") or (isinstance(x, ast.Name) and "max_hye_size" in x.id) for x in ast.walk(mv.inline(d_.value)))
+                    for d_ in walk_no_nested(mfi.node)
+                ) or bool(free & {a_.arg for a_ in mfi.params})
+                capped = mentions and not (isinstance(hi_i, ast.Call) and norm(hi_i.func) == "max")
+                st = "ok" if capped else ("unknown" if mentions or opaque or hi_i is None else "violation")
+                res.add("B-MAXSIZE", mfi.short, norm(n), "high<=max_hye_size+1", st, "" if st == "ok" else f"the size of an extra hyperedge is drawn below `{norm(hi_i) if hi_i is not None else '?'}`, which is not capped by the model's max_hye_size: hyperedges larger than the maximum size are built into the sample", loc(mfi, n))
+                lo_i = mv.inline(lo) if lo is not None else None
+                if isinstance(lo_i, ast.Constant) and isinstance(lo_i.value, int):
+                    res.check(lo_i.value >= 2, "B-MAXSIZE", mfi.short, norm(n), "low>=2", "a drawn hyperedge size can be below 2", loc(mfi, n))
+        if not n_draws:
+            res.unknown("B-MAXSIZE", "HyMMSBMSampler", "hye_size = self._rng.integers(2, max_hye_size + 1)", "high<=max_hye_size+1", "no random draw of a hyperedge size recognised", "")
     with res.guard("Y-WEIGHTED"):
         v = ctx.view("HyMMSBMSampler.sample")
         f = v.fi.short
